@@ -226,13 +226,42 @@ def r2a_global_state(ctx: Context) -> None:
                     shared = any(base.attr in k.class_vars and isinstance(k.class_vars[base.attr], (ast.List, ast.Dict, ast.Set, ast.Call)) for k in prog.mro(f.cls))
                     if shared and not inst:
                         ctx.fail("R2.global-state", f"{f.qualname.split(':')[1]}:class-default:{base.attr}", f"`{src(x)[:80]}` mutates a mutable class-level default shared by all instances", f, x)
+        for x in walk_scope(f.node):
+            if not isinstance(x, ast.Call):
+                continue
+            # a method call on a module-level instance of a repository class whose method writes its own attributes: the module keeps that object between calls
+            if isinstance(x.func, ast.Attribute) and isinstance(x.func.value, ast.Name) and x.func.value.id in consts and x.func.value.id not in local_names \
+                    and isinstance(consts[x.func.value.id], ast.Call):
+                kcls = prog.class_of_name(f.module, dotted(consts[x.func.value.id].func) or "")
+                meth = prog.lookup_method(kcls, x.func.attr) if kcls is not None else None
+                touches_self = meth is not None and meth.self_name and any(isinstance(y, ast.Attribute) and isinstance(y.value, ast.Name) and y.value.id == meth.self_name for y in ast.walk(meth.node))
+                writes = meth is not None and any((isinstance(y, (ast.Attribute, ast.Subscript)) and isinstance(y.ctx, ast.Store)) or isinstance(y, ast.AugAssign)
+                                                  or (isinstance(y, ast.Call) and ((dotted(y.func) or "").endswith(("copyto", "put", "place")) or any(k.arg == "out" for k in y.keywords)))
+                                                  for y in ast.walk(meth.node))
+                if touches_self and writes:
+                    # a reusable workspace is harmless as long as nothing of it escapes (results copied out, contents overwritten before they are read): whether that is
+                    # so needs an escape analysis of the buffers, which this rule does not have - undecided, not a finding
+                    raise AnalysisError(f"{f.loc(x)}: `{src(x)[:60]}` works on the module-level object `{x.func.value.id}`, which `{x.func.attr}` writes to; whether any of its "
+                                        "buffers reaches a caller (state shared between calls) is not decided")
+            # `out=self.<attr>` where <attr> is a class-level array never rebound per instance: every instance writes into the same array
+            for k_ in x.keywords:
+                if k_.arg == "out" and f.cls is not None and is_self_attr(k_.value, f.self_name):
+                    a_ = k_.value.attr  # type: ignore[union-attr]
+                    inst = any(mangle(kk.name, a_) in prog.attr_stores(kk, inherited=False) for kk in prog.mro(f.cls))
+                    shared = any(a_ in kk.class_vars for kk in prog.mro(f.cls))
+                    if shared and not inst:
+                        ctx.fail("R2.global-state", f"{f.qualname.split(':')[1]}:class-default:{a_}", f"`{src(x)[:70]}` writes into the class-level array `{a_}`, which all instances share: "
+                                 "what one instance draws or computes is overwritten by the next instance that refills it", f, x)
         for d in f.node.decorator_list:
             nm = (dotted(d) or (dotted(d.func) if isinstance(d, ast.Call) else "") or "").split(".")[-1]
-            if nm in ("lru_cache", "cache") and f.module.name.startswith(("black_it.samplers", "black_it.schedulers", "black_it.calibrator")):
+            if nm in ("lru_cache", "cache") and f.module.name.startswith(STATEFUL_PREFIXES):
                 from ..util import is_pure_cached_function
                 if is_pure_cached_function(prog, f):
                     ctx.ok("R2.global-state", f"{f.qualname.split(':')[1]}:pure-cache:{nm}", f"@{nm} on a closed function whose result no caller writes to: not observable")
                     continue
+                if not f.module.name.startswith(("black_it.samplers", "black_it.schedulers", "black_it.calibrator")):
+                    raise AnalysisError(f"{f.loc(d)}: @{nm} on {f.qualname.split(':')[1]} hands out an object that is written to later (a cached workspace); whether anything of it "
+                                        "reaches a caller is not decided")
                 ctx.fail("R2.global-state", f"{f.qualname.split(':')[1]}:decorator:{nm}", f"@{nm} keeps process-wide state that a restored run does not have", f, d)
     ctx.floor("R2", "functions scanned for module/class-level writes", n, 120)
     ctx.ok("R2.global-state", "package:scanned", f"{n} functions scanned: no write to module-level or class-level state")
